@@ -2225,3 +2225,47 @@ Example mx_seq_example :
   mx_run [] [fail; fail; good; later; expired] =
   [(MxTrans, true); (MxTrans, true); (MxRelay (DHost 7), true); (MxRelay (DHost 7), false); (MxTrans, true)].
 Proof. vm_compute. reflexivity. Qed.
+
+(* ================================================================== *)
+(** * reply codes: only the class of the code counts *)
+Theorem class_of_code_only n c :
+  read_reply (outcome_of_code n) = inl c ->
+  (is_error c = true <-> 400 <= n <= 599) /\
+  (factory c = Perm <-> 500 <= n <= 599) /\
+  (is_error c = true -> factory c = Trans <-> 400 <= n <= 499).
+Proof.
+  unfold outcome_of_code.
+  destruct (n <? 100) eqn:E1; [discriminate|]. destruct (n <? 300) eqn:E2.
+  { intros [= <-]. cbn. repeat split; intros; try discriminate; try lia. }
+  destruct (n <? 400) eqn:E3.
+  { intros [= <-]. cbn. repeat split; intros; try discriminate; try lia. }
+  destruct (n <? 500) eqn:E4.
+  { intros [= <-]. cbn. repeat split; intros; try discriminate; try lia; reflexivity. }
+  destruct (n =? 500) eqn:E5.
+  { intros [= <-]. cbn. repeat split; intros; try discriminate; try lia; reflexivity. }
+  destruct (n <? 600) eqn:E6; [|discriminate].
+  intros [= <-]. cbn. repeat split; intros; try discriminate; try lia; reflexivity.
+Qed.
+
+(* pipe relay: permanent only if the chosen output BEGINS with "5." (then digits "." digits and a
+   white space): later lines never matter *)
+Theorem pipe_permanent_begins_with_5 st so se :
+  raise_error KPipe st so se = Perm ->
+  let so' := rstrip_b so in let se' := rstrip_b se in
+  let msg := match so' with [] => (match se' with [] => default_msg | _ => se' end) | _ => so' end in
+  exists d rest, u8r msg = 53 :: 46 :: d :: rest /\ udigit d = true.
+Proof.
+  cbn [raise_error]. cbn zeta.
+  set (msg := match rstrip_b so with [] => match rstrip_b se with [] => default_msg | _ => rstrip_b se end | _ => rstrip_b so end).
+  destruct (perm_pattern (u8r msg)) eqn:E; [|discriminate]. intros _.
+  unfold perm_pattern in E. destruct (u8r msg) as [|a [|b t]]; try discriminate.
+  - destruct a as [|p]; try discriminate. repeat (destruct p as [p|p|]; try discriminate).
+  - destruct a as [|p]; try discriminate. repeat (destruct p as [p|p|]; try discriminate).
+    destruct b as [|q]; try discriminate. repeat (destruct q as [q|q|]; try discriminate).
+    unfold digits1 in E. destruct t as [|d rest]; [discriminate|].
+    destruct (udigit d) eqn:Ed; [|discriminate]. eauto.
+Qed.
+Example pipe_multiline_example :
+  raise_error KPipe 1 [116;101;109;112;10;53;46;49;46;49;32;120] [] = Trans /\
+  raise_error KPipe 1 [53;46;49;46;49;32;120;10;116;101;109;112] [] = Perm.
+Proof. vm_compute. split; reflexivity. Qed.
